@@ -22,12 +22,12 @@ pub fn start_record_watchdog() {
         std::thread::sleep(std::time::Duration::from_secs(2));
         let stuck = {
             let g = PROGRESS.lock().unwrap();
-            g.as_ref().filter(|(t, _, _)| t.elapsed().as_secs() >= 60).map(|(_, n, p)| (*n, p.clone()))
+            g.as_ref().filter(|(t, _, _)| t.elapsed().as_secs() >= 180).map(|(_, n, p)| (*n, p.clone()))
         };
         if let Some((n, path)) = stuck {
             use std::io::Write;
             if let Ok(mut f) = std::fs::OpenOptions::new().append(true).open(&path) {
-                let _ = writeln!(f, "{}", json!({"ev": "panic", "kind": "panic", "typed": [], "what": "an engine call did not return within 60 s (hang / unbounded time)", "panic": "hang"}));
+                let _ = writeln!(f, "{}", json!({"ev": "panic", "kind": "panic", "typed": [], "what": "an engine call did not return within 180 s (hang / unbounded time)", "panic": "hang"}));
             }
             println!("RV-RECORDED {}", n + 1);
             let _ = std::io::stdout().flush();
